@@ -46,10 +46,77 @@ def analyse(reg: Registry, tier: str, seed: int, index=None):
 
 
 # ---------------------------------------------------------------------- self test (E10)
+class PatchMutant:
+    """A stored patch used as a self-test input: `seeded/<P>_<k>/patch.diff` (must fire one of the rules
+    recorded in its meta.json) or `benign/*.diff` (behaviour-preserving refactor: must stay silent)."""
+
+    def __init__(self, name, path, expect):
+        self.name = name
+        self.path = path
+        self.expect = expect  # None (benign) | tuple of rule ids, any of which must fire
+        self.relpath = None
+
+
+def patch_mutants(prop: str, consulted=None):
+    """Seeded patches whose recorded detecting rule belongs to `prop`, and stored benign refactors that
+    touch a module this property's rules consulted on the unchanged tree."""
+    import glob
+    import re
+    out = []
+    for mp in sorted(glob.glob(os.path.join(VERIF_DIR, "seeded", "*", "meta.json"))):
+        try:
+            with open(mp) as f:
+                meta = json.load(f)
+        except Exception:
+            continue
+        det = meta.get("detection", {})
+        if not str(det.get("status", "")).startswith("caught"):
+            continue
+        rules = tuple(sorted(set(re.findall(r"C\d+-R\d+", " ".join(str(det.get(k, "")) for k in ("rule", "key", "message"))))))
+        mine = tuple(r for r in rules if r.startswith(prop + "-"))
+        if not mine:
+            continue
+        d = os.path.dirname(mp)
+        out.append(PatchMutant("seed:" + os.path.basename(d), os.path.join(d, "patch.diff"), mine))
+    for bp in sorted(glob.glob(os.path.join(VERIF_DIR, "benign", "*.diff"))):
+        if consulted is not None:
+            try:
+                from .patchutil import parse
+                with open(bp, encoding="utf-8") as f:
+                    touched = {p[len("lib/sqlalchemy/"):] for p in parse(f.read()) if p.startswith("lib/sqlalchemy/")}
+            except Exception:
+                touched = set()
+            if not (touched & set(consulted)):
+                continue
+        out.append(PatchMutant("benign:" + os.path.basename(bp)[:-5], bp, None))
+    return out
+
+
+_PATCH_MUTANTS: list = []
+
+
 def _run_mutant(args):
     prop, idx, root = args
     try:
         reg = load_registry(prop)
+        if idx >= len(reg.mutants):
+            m = _PATCH_MUTANTS[idx - len(reg.mutants)]
+            from .patchutil import PatchDoesNotApply, overlay_for
+            try:
+                ov = overlay_for(m.path, root)
+            except (PatchDoesNotApply, OSError) as e:
+                return (m.name, m.expect, "skipped", f"stored patch does not apply to this tree: {e}")
+            for rel, new_src in ov.items():
+                try:
+                    compile(new_src, rel, "exec")
+                except SyntaxError as e:
+                    return (m.name, m.expect, "error", f"patched {rel} does not compile: {e}")
+            if _BASE_INDEX is not None and _BASE_INDEX.root == root:
+                index = _BASE_INDEX
+                index.apply_overlay(ov)
+            else:
+                index = Index(root, overlay=ov)
+            return _judge(reg, m, index)
         m = reg.mutants[idx]
         path = os.path.join(root, "lib", "sqlalchemy", m.relpath)
         with open(path, encoding="utf-8") as f:
@@ -69,43 +136,51 @@ def _run_mutant(args):
             index.apply_overlay({m.relpath: new_src})
         else:
             index = Index(root, overlay={m.relpath: new_src})
+        return _judge(reg, m, index)
+    except Exception as e:  # pragma: no cover
+        return (f"#{idx}", None, "error", traceback.format_exc()[-600:])
+
+
+def _judge(reg, m, index):
+    if True:
+        expects = m.expect if isinstance(m.expect, tuple) else ((m.expect,) if m.expect else ())
+        label = "|".join(expects) if expects else None
         try:
             ctx, per_rule, new, hit, known = analyse(reg, "quick", 0, index=index)
         except AnalysisError as e:
-            if m.expect is None:
-                return (m.name, m.expect, "noisy", f"ANALYSIS-ERROR on benign refactor: {e}")
+            if not expects:
+                return (m.name, None, "noisy", f"ANALYSIS-ERROR on benign refactor: {e}")
             # a mutant that blinds the rule is detected fail-closed (exit 2), acceptable but reported
-            return (m.name, m.expect, "fail-closed", str(e)[:200])
+            return (m.name, label, "fail-closed", str(e)[:200])
         new = [i for i in new if (i.rule, i.key) not in _BASELINE_KEYS]
         fired = sorted({i.rule for i in new})
-        if m.expect is None:
+        if not expects:
             if new:
                 return (m.name, None, "noisy", "; ".join(f"{i.rule} {i.key}: {i.detail}" for i in new)[:400])
             return (m.name, None, "silent", "")
-        if m.expect in fired:
-            return (m.name, m.expect, "fired", "; ".join(f"{i.rule} {i.key}" for i in new if i.rule == m.expect)[:300])
-        return (m.name, m.expect, "missed", f"fired={fired}")
-    except Exception as e:  # pragma: no cover
-        return (f"#{idx}", None, "error", traceback.format_exc()[-600:])
+        if set(expects) & set(fired):
+            return (m.name, label, "fired", "; ".join(f"{i.rule} {i.key}" for i in new if i.rule in expects)[:300])
+        return (m.name, label, "missed", f"fired={fired}")
 
 
 _BASE_INDEX = None
 _BASELINE_KEYS: set = set()
 
 
-def selftest(reg: Registry, root: str, jobs: int = int(os.environ.get("VERIF_JOBS", "8")), baseline_new=()):
+def selftest(reg: Registry, root: str, jobs: int = int(os.environ.get("VERIF_JOBS", "8")), baseline_new=(), consulted=None):
     """Mutants/benign refactors are judged relative to the baseline run: a mutant must add a
     violation (rule, key) that the unchanged tree does not have; a benign refactor must add none."""
     import multiprocessing as mp
 
-    global _BASE_INDEX, _BASELINE_KEYS
-    if not reg.mutants:
+    global _BASE_INDEX, _BASELINE_KEYS, _PATCH_MUTANTS
+    _PATCH_MUTANTS = patch_mutants(reg.prop, consulted)
+    if not reg.mutants and not _PATCH_MUTANTS:
         return {"mutants_total": 0}, True, []
     _BASE_INDEX = Index(root)
     import gc
     gc.freeze()  # keep the parsed trees out of the children's GC passes (less copy-on-write)
     _BASELINE_KEYS = {(i.rule, i.key) for i in baseline_new}
-    args = [(reg.prop, i, root) for i in range(len(reg.mutants))]
+    args = [(reg.prop, i, root) for i in range(len(reg.mutants) + len(_PATCH_MUTANTS))]
     with mp.get_context("fork").Pool(min(jobs, len(args)), maxtasksperchild=1) as pool:
         res = pool.map(_run_mutant, args, chunksize=1)
     _BASE_INDEX = None
@@ -116,6 +191,10 @@ def selftest(reg: Registry, root: str, jobs: int = int(os.environ.get("VERIF_JOB
         "mutants_fired": sum(1 for r in breaking if r[2] == "fired"),
         "mutants_fail_closed": sum(1 for r in breaking if r[2] == "fail-closed"),
         "mutants_skipped": sum(1 for r in res if r[2] == "skipped"),
+        "seeded_patches_total": sum(1 for r in res if str(r[0]).startswith("seed:")),
+        "seeded_patches_fired": sum(1 for r in res if str(r[0]).startswith("seed:") and r[2] == "fired"),
+        "benign_patches_total": sum(1 for r in res if str(r[0]).startswith("benign:")),
+        "benign_patches_silent": sum(1 for r in res if str(r[0]).startswith("benign:") and r[2] == "silent"),
         "benign_total": len(benign),
         "benign_silent": sum(1 for r in benign if r[2] == "silent"),
         "selftest_results": [
@@ -162,7 +241,7 @@ def main(argv=None):
     extra = {}
     st_ok = True
     if a.tier == "thorough" or a.selftest_only:
-        summary, st_ok, bad = selftest(reg, ctx.index.root, baseline_new=new)
+        summary, st_ok, bad = selftest(reg, ctx.index.root, baseline_new=new, consulted={k.split("::")[0] for k in ctx.functions_analysed})
         extra.update(summary)
         for r in bad:
             print(f"SELFTEST-FAIL property={prop} mutant={r[0]} expect={r[1]} status={r[2]} {r[3]}")
